@@ -353,7 +353,7 @@ theorem logging_stable (fmt : Fmt) : GenericF.Stable genEnv fmt allLeaves 6 (.na
   have hfs : findStruct genEnv.structs "LoggingConfig" = some Gen.struct_LoggingConfig := by decide
   have hl : allLeaves.names.contains "LoggingConfig" = false := by decide
   simp only [GenericF.Stable, hl, hfs, Bool.false_eq_true, if_false]
-  refine ⟨lcVals, rfl, ?_⟩
+  refine ⟨Or.inl (by cases fmt <;> rfl), lcVals, rfl, ?_⟩
   intro fd hm hr
   simp only [Gen.struct_LoggingConfig, List.mem_cons, List.mem_nil_iff, or_false] at hm
   rcases hm with h | h | h <;> subst h
